@@ -51,6 +51,20 @@ def check(ctx: Ctx) -> str:
     ctx.check(ok_d, "make_attrgetter:default-per-part", "filters:make_attrgetter", "default not substituted after each part of the path",
               "make_attrgetter must replace an undefined intermediate value by `default` inside the loop over the dotted path (under exactly `default is not None and isinstance(item, Undefined)`): applied only after the loop, `map(attribute='address.city', default='?')` raises UndefinedError for an item without `address` instead of yielding the default",
               mg.loc(loops_[0]))
+    # a multi-attribute key post-processes (lowers) *every* component: the call of postprocess is
+    # inside the iteration over the attribute list
+    mm = repo.func("filters:make_multi_attrgetter")
+    ppc = [c for c in astq.calls(mm.node) if astq.callee(c) == "postprocess"]
+    def _in_parts_loop(c: ast.AST) -> bool:
+        for l_ in ast.walk(mm.node):
+            if isinstance(l_, ast.For) and "parts" in {x.id for x in ast.walk(l_.iter) if isinstance(x, ast.Name)} and any(x is c for b_ in l_.body for x in ast.walk(b_)):
+                return True
+            if isinstance(l_, (ast.ListComp, ast.GeneratorExp)) and any(x is c for x in ast.walk(l_.elt)):
+                return True
+        return False
+    ctx.check(bool(ppc) and all(_in_parts_loop(c) for c in ppc), "make_multi_attrgetter:postprocess-per-part", "filters:make_multi_attrgetter", "postprocess applied outside the loop over the attributes" if ppc else "postprocess never applied",
+              "make_multi_attrgetter must apply `postprocess` (ignore_case) to the value of every attribute, inside the loop over `parts`: applied after the loop only the last component is lowered and `sort(attribute='a,b')` compares the first key case-sensitively although case_sensitive is false",
+              mm.loc(ppc[0]) if ppc else mm.loc())
     ic = repo.func("filters:ignore_case")
     s = ic.ntext
     ic_rets = {ast.unparse(r_.value): astq.guard_atoms(ic.nnode, r_) for r_ in astq.returns(ic.nnode) if r_.value is not None}
